@@ -4,10 +4,10 @@ from ..core import hx
 from . import C05
 
 PROOF_MODULE = "Nlmodel.Proofs.C02"
-PROOF_FILES = ["Nlmodel/Proofs/C02.lean", "Nlmodel/Model/Verifier.lean", "Nlmodel/Model/VM.lean", "Nlmodel/Model/Bytecode.lean"]
+PROOF_FILES = ["Nlmodel/Proofs/C02.lean", "Nlmodel/Proofs/Lemmas/VerifierInv.lean", "Nlmodel/Proofs/Lemmas/VerifierStep.lean", "Nlmodel/Proofs/Lemmas/VerifierSound.lean", "Nlmodel/Model/Verifier.lean", "Nlmodel/Model/VM.lean", "Nlmodel/Model/Bytecode.lean"]
 THEOREM_FILE = PROOF_FILES[0]
-LEVEL_TEXT = ("A verified bytecode checker. Model/Verifier.check validates, on the decoded BYTE stream, a certificate (owner function and a lower bound on the operand-stack height per instruction): every certified offset decodes to a valid opcode with its operands inside the code; every jump target, fall-through and function entry found in the constant pool is a certified instruction start of the same function; constant indices, builtin numbers and local slots are in range; Halt occurs only in top-level code and Return only in functions; pops never exceed the lower bound. Proofs/C02 proves soundness statements about it over the machine model (see the theorem list in evidence; the dynamic soundness 'a checked program never reaches a fault in any number of steps' is being proved instruction group by instruction group - partial where the evidence says so). The check runs this checker on the REAL compiler's real bytes and constant pool for every generated source (all paths of that bytecode, not only the path taken), so it is independent of the compiler model; the machine model the theorems speak about is tied to vm.rs by step-count/stack-height/collection correspondence, and the fault probes in vm.rs (hook) turn any out-of-contract access of the real VM into a reported FAULT.")
-LEVEL_NOTE = ("Trusted: Lean kernel; the certificate inference is untrusted (its output is checked); the harness's printing of bytes/constants; the probes cover pop, fetch, operand reads, builtin number, base pointer; get_local/set_local/constants use Rust's checked indexing (a panic, reported as such). Partial: see theorem list.")
+LEVEL_TEXT = ("A verified bytecode checker. Model/Verifier.check validates, on the decoded BYTE stream, a certificate (owner function and a lower bound on the operand-stack height per instruction): every certified offset decodes to a valid opcode with its operands inside the code; every jump target, fall-through and function entry found in the constant pool is a certified instruction start of the same function; constant indices, builtin numbers and local slots are in range; Halt occurs only in top-level code and Return only in functions; pops never exceed the lower bound. Proofs/C02 proves SOUNDNESS over the machine model for all 45 opcodes: from a state satisfying the invariant (certificate entry at the instruction pointer; base pointer + locals + lower bound <= stack size; every suspended frame can take its pending result; every function value in stack, globals, constants and heap arrays is a checked entry with its locals count) a step of a checked program halts, returns an error value, or continues in such a state - it never faults - hence a checked program never reaches a fault in any number of steps (C02_check_sound, also for a retained machine); the certificate inference is untrusted. What remains partial: that the compiler emits only checkable bytecode is not a theorem (C02_compiler_verifiable of the design) - it is decided per program by running the verified checker on the real bytes. The check runs this checker on the REAL compiler's real bytes and constant pool for every generated source (all paths of that bytecode, not only the path taken), so it is independent of the compiler model; the machine model the theorems speak about is tied to vm.rs by step-count/stack-height/collection correspondence, and the fault probes in vm.rs (hook) turn any out-of-contract access of the real VM into a reported FAULT.")
+LEVEL_NOTE = ("Trusted: Lean kernel; the certificate inference is untrusted (its output is checked); the harness's printing of bytes/constants; the probes cover pop, fetch, operand reads, builtin number, base pointer; get_local/set_local/constants use Rust's checked indexing (a panic, reported as such). Partial: 'every accepted source compiles to checkable bytecode' is decided per generated program, not proved for all programs.")
 TECHNIQUE = "Lean 4 proof (verified bytecode checker) applied to the real compiler's bytecode + fault probes in the real VM"
 RULE = ("every program of the C01 generators (bounded-exhaustive templates, type-directed random), token-level mutations of them and random "
         "token sequences, keeping those that compile; each compiled by the REAL compiler and its bytes checked by the verified checker, and "
